@@ -56,7 +56,8 @@ package staking
 //@   ensures err != nil && !unavail(err) ==> noWrites()
 
 //@ func Application.reclaimEscrow
-//@   props C05 C08 C15
+//@   props C05 C08 C15 C10
+//@   note (C10) the epoch transition in EndBlock redeems every matured debonding delegation from the escrow account's debonding pool and fails - which stops block processing - if the pool holds fewer shares than the delegation: that the pool's debonding shares always cover the recorded debonding delegations is the state invariant DebGap(a) unchanged (SharesConsistentWithOld), established HERE, by the handler that creates debonding delegations, for every reclaim including a self-reclaim (seed C10_h dropped the write-back of the delegator's account, which for a self-reclaim is the escrow account: the delegation was recorded, the pool's shares were not, and EndBlock failed one debonding period later)
 //@   requires ctx != nil && state != nil && reclaim != nil && quantity.Val(&reclaim.Shares) >= 0
 //@   ensures err == nil ==> conserved() && stakingState.SharesConsistentWithOld()
 //@   ensures err == nil ==> (forall a staking.Address :: stakingState.GGen[a] == old(stakingState.GGen[a]))
